@@ -84,5 +84,42 @@ def restore (_ : RefAlloc) (cp : RefAlloc) : RefAlloc := cp
 
 def restoreTransparent (r : RefAlloc) : RefAlloc := r
 
+/-- one more atom of `n` bytes -/
+def bump (r : RefAlloc) (atoms heap : Nat) : RefAlloc :=
+  { r with atomCount := r.atomCount + atoms, heapSize := r.heapSize + heap }
+
+/-- **the accounting rule of C12 as a function of the operation**: the counters after an
+operation of a history, given whether it succeeded (`t`).  Failed, skipped and aborted operations
+change nothing; a full restore resets to the counts recorded in the checkpoint; transparent and
+value-preserving restores change nothing. -/
+def after (r : RefAlloc) (s : Session) (op : Op) (t : Tag) : RefAlloc :=
+  match t with
+  | .err _ => r
+  | .skip => r
+  | .aborted => r
+  | _ =>
+    match op with
+    | .atom b => r.bump 1 b.length
+    | .small v => r.bump 1 (encodeInt (v : Int)).length
+    | .u64 v => r.bump 1 (encodeInt (v : Int)).length
+    | .i64 v => r.bump 1 (encodeInt v).length
+    | .num v => r.bump 1 (encodeInt v).length
+    | .pair _ _ => { r with pairCount := r.pairCount + 1 }
+    | .sub _ _ _ => r.bump 1 0
+    | .cat n _ => r.bump 1 n
+    | .gatom n => r.bump n 0
+    | .gpair n => { r with pairCount := r.pairCount + n }
+    | .rgpair n => { r with pairCount := r.pairCount - n }
+    | .cp => r
+    | .tcp => r
+    | .trst _ => r
+    | .mrst _ _ => r
+    | .rst k =>
+      match s.getCp k with
+      | some c =>
+        { r with atomCount := c.inner.atoms + c.ghostAtoms, pairCount := c.inner.pairs + c.ghostPairs,
+                 heapSize := c.inner.u8s + c.ghostHeap }
+      | none => r
+
 end RefAlloc
 end Clvm.Alloc
